@@ -7,6 +7,7 @@ import (
 	"encoding/json"
 	"fmt"
 	"reflect"
+	"sort"
 	"sync"
 
 	blsu "github.com/protolambda/bls12-381-util"
@@ -104,6 +105,14 @@ func runC14(b *fw.B) {
 	if b.Batch == 0 {
 		c14Constants(b)
 	}
+	// at the end of the process, after configurations were handed out by name and scribbled on and everything else ran: still as published
+	defer func() {
+		if !b.Stop() {
+			c14SpecOptions(b)
+			c14Constants(b)
+			b.Inc("constants_rechecked_at_the_end_of_a_process")
+		}
+	}()
 	nSched := 200 / 16
 	if !quick {
 		nSched = 5000 / 16
@@ -646,6 +655,85 @@ var c14Minimal = map[string]string{
 	"SECONDS_PER_SLOT": "6", "SHARD_COMMITTEE_PERIOD": "64", "ETH1_FOLLOW_DISTANCE": "16", "MIN_PER_EPOCH_CHURN_LIMIT": "2", "CHURN_LIMIT_QUOTIENT": "32", "MAX_PER_EPOCH_ACTIVATION_CHURN_LIMIT": "4",
 	"DEPOSIT_CHAIN_ID": "5", "DEPOSIT_NETWORK_ID": "5", "DEPOSIT_CONTRACT_ADDRESS": "0x1234567890123456789012345678901234567890",
 	"MIN_EPOCHS_FOR_BLOCK_REQUESTS": "272", "MIN_PER_EPOCH_CHURN_LIMIT_ELECTRA": "64000000000", "MAX_PER_EPOCH_ACTIVATION_EXIT_CHURN_LIMIT": "128000000000",
+}
+
+// c14SpecOptions: the public way to obtain a configuration by name (configs.SpecOptions.Spec) hands out copies: the result carries the
+// named parts' published constants, and whatever the caller does to it leaves the built-in configurations as published.
+func c14SpecOptions(b *fw.B) {
+	names := []string{"mainnet", "minimal"}
+	builtin := map[string]*common.Spec{"mainnet": configs.Mainnet, "minimal": configs.Minimal}
+	pinned := map[string]map[string]string{"mainnet": {}, "minimal": {}}
+	for k, v := range c14Common {
+		pinned["mainnet"][k], pinned["minimal"][k] = v, v
+	}
+	for k, v := range c14Mainnet {
+		pinned["mainnet"][k] = v
+	}
+	for k, v := range c14Minimal {
+		pinned["minimal"][k] = v
+	}
+	keysOf := func(part any) []string {
+		data, _ := json.Marshal(part)
+		var m map[string]any
+		json.Unmarshal(data, &m)
+		var out []string
+		for k := range m {
+			out = append(out, k)
+		}
+		sort.Strings(out)
+		return out
+	}
+	for n := 0; n < 6; n++ {
+		pick := func() string { return names[b.Rng.IntN(2)] }
+		o := configs.SpecOptions{LegacyConfig: pick(), LegacyConfigChanged: b.Rng.IntN(3) != 0, Config: pick(), Phase0Preset: pick(), AltairPreset: pick(),
+			BellatrixPreset: pick(), CapellaPreset: pick(), DenebPreset: pick(), ElectraPreset: pick()}
+		b.Case("spec-options", fmt.Sprintf("%+v", o))
+		var res *common.Spec
+		var err error
+		if !b.NoPanic("spec-options/panic", func() { res, err = o.Spec() }) {
+			return
+		}
+		if err != nil || res == nil {
+			b.Violate("spec-options/error", fmt.Sprintf("SpecOptions%+v.Spec() failed: %v", o, err), nil)
+			return
+		}
+		if res == configs.Mainnet || res == configs.Minimal {
+			b.Violate("spec-options/hands-out-the-built-in", fmt.Sprintf("SpecOptions%+v.Spec() returned the built-in configuration itself, not a copy", o), nil)
+			return
+		}
+		data, _ := json.Marshal(res)
+		var got map[string]any
+		json.Unmarshal(data, &got)
+		parts := []struct {
+			name string
+			keys []string
+		}{
+			{o.Config, keysOf(&builtin[o.Config].Config)}, {o.Phase0Preset, keysOf(&builtin[o.Phase0Preset].Phase0Preset)}, {o.AltairPreset, keysOf(&builtin[o.AltairPreset].AltairPreset)},
+			{o.BellatrixPreset, keysOf(&builtin[o.BellatrixPreset].BellatrixPreset)}, {o.CapellaPreset, keysOf(&builtin[o.CapellaPreset].CapellaPreset)},
+			{o.DenebPreset, keysOf(&builtin[o.DenebPreset].DenebPreset)}, {o.ElectraPreset, keysOf(&builtin[o.ElectraPreset].ElectraPreset)},
+		}
+		for _, part := range parts {
+			for _, k := range part.keys {
+				want, ok := pinned[part.name][k]
+				if !ok {
+					continue
+				}
+				b.Inc("spec_options_constants_checked")
+				if fmt.Sprint(got[k]) != want {
+					b.Violate("spec-options/wrong/"+k, fmt.Sprintf("SpecOptions%+v.Spec() has %s=%v, the %s part publishes %s", o, k, got[k], part.name, want), nil)
+					return
+				}
+			}
+		}
+		// the caller owns the result
+		res.GENESIS_FORK_VERSION = common.Version{9, 9, 9, 9}
+		res.ALTAIR_FORK_EPOCH, res.DENEB_FORK_EPOCH = 5, 6
+		res.SLOTS_PER_EPOCH, res.SYNC_COMMITTEE_SIZE, res.MAX_BLOBS_PER_BLOCK = 7, 3, 1
+		res.PRESET_BASE, res.CONFIG_NAME = "scribbled", "scribbled"
+		res.MAX_WITHDRAWALS_PER_PAYLOAD, res.INACTIVITY_PENALTY_QUOTIENT_BELLATRIX = 1, 1
+		b.Inc("spec_options_results_scribbled_on")
+		b.Nontrivial("spec-options", fmt.Sprintf("%+v", o))
+	}
 }
 
 func c14Constants(b *fw.B) {
